@@ -1773,10 +1773,10 @@ fast_composite_rotate_90_##suffix (pixman_implementation_t *imp,              \
     PIXMAN_IMAGE_GET_LINE (dest_image, dest_x, dest_y, pix_type,              \
 			   dst_stride, dst_line, 1);                          \
     src_x_t = -src_y + pixman_fixed_to_int (                                  \
-				src_image->common.transform->matrix[0][2] +   \
+		(pixman_fixed_48_16_t)src_image->common.transform->matrix[0][2] + \
 				pixman_fixed_1 / 2 - pixman_fixed_e) - height;\
     src_y_t = src_x + pixman_fixed_to_int (                                   \
-				src_image->common.transform->matrix[1][2] +   \
+		(pixman_fixed_48_16_t)src_image->common.transform->matrix[1][2] + \
 				pixman_fixed_1 / 2 - pixman_fixed_e);         \
     PIXMAN_IMAGE_GET_LINE (src_image, src_x_t, src_y_t, pix_type,             \
 			   src_stride, src_line, 1);                          \
@@ -1797,10 +1797,10 @@ fast_composite_rotate_270_##suffix (pixman_implementation_t *imp,             \
     PIXMAN_IMAGE_GET_LINE (dest_image, dest_x, dest_y, pix_type,              \
 			   dst_stride, dst_line, 1);                          \
     src_x_t = src_y + pixman_fixed_to_int (                                   \
-				src_image->common.transform->matrix[0][2] +   \
+		(pixman_fixed_48_16_t)src_image->common.transform->matrix[0][2] + \
 				pixman_fixed_1 / 2 - pixman_fixed_e);         \
     src_y_t = -src_x + pixman_fixed_to_int (                                  \
-				src_image->common.transform->matrix[1][2] +   \
+		(pixman_fixed_48_16_t)src_image->common.transform->matrix[1][2] + \
 				pixman_fixed_1 / 2 - pixman_fixed_e) - width; \
     PIXMAN_IMAGE_GET_LINE (src_image, src_x_t, src_y_t, pix_type,             \
 			   src_stride, src_line, 1);                          \
